@@ -19,6 +19,7 @@ package main
 
 import (
 	"bytes"
+	"errors"
 	"fmt"
 	"math"
 	"math/rand/v2"
@@ -884,7 +885,299 @@ func c04BytesFormats(c *Ctx) {
 
 // ---------------------------------------------------------------- correspondence: time codecs vs the Lean model
 
+func c04ErrClass(err error) string {
+	switch {
+	case err == nil:
+		return "ok"
+	case errors.Is(err, strconv.ErrSyntax):
+		return "E syntax"
+	case errors.Is(err, strconv.ErrRange):
+		return "E range"
+	}
+	return "other"
+}
+
+var c04Pow10s = []uint64{1, 1e3, 1e6, 1e9}
+
+// c04Mutate applies a few byte-level edits drawn from an alphabet that is critical for these grammars.
+func c04Mutate(r *rand.Rand, b []byte) []byte {
+	const alpha = "0123456789.-+,PTHMSpthmsYWDywdeE _:/"
+	out := append([]byte(nil), b...)
+	for k := 1 + r.IntN(2); k > 0; k-- {
+		switch op := r.IntN(7); {
+		case op == 0 && len(out) > 0: // delete
+			i := r.IntN(len(out))
+			out = append(out[:i], out[i+1:]...)
+		case op == 1 && len(out) > 0: // replace
+			out[r.IntN(len(out))] = alpha[r.IntN(len(alpha))]
+		case op == 2: // insert
+			i := r.IntN(len(out) + 1)
+			out = append(out[:i], append([]byte{alpha[r.IntN(len(alpha))]}, out[i:]...)...)
+		case op == 3: // insert zeros / digits run
+			i := r.IntN(len(out) + 1)
+			run := bytes.Repeat([]byte{"09"[r.IntN(2)]}, 1+r.IntN(21))
+			out = append(out[:i], append(run, out[i:]...)...)
+		case op == 4 && len(out) > 0: // truncate
+			out = out[:r.IntN(len(out))]
+		case op == 5 && len(out) > 0: // bump a digit (overflow by one at the boundaries)
+			i := r.IntN(len(out))
+			if out[i] >= '0' && out[i] < '9' {
+				out[i]++
+			}
+		default: // case flip of a designator
+			for i := range out {
+				if out[i] >= 'A' && out[i] <= 'Z' && r.IntN(2) == 0 {
+					out[i] += 32
+				}
+			}
+		}
+	}
+	return out
+}
+
+var c04HandTexts = []string{"", "-", "+", "0", "-0", "+0", "00", "01", "1", "-1", "1.", ".1", "1.0", "1.5", "-1.5", "1..5", "1.5.5", "1,5", "1e3", "0x10", " 1", "1 ",
+	"9223372036854775807", "9223372036854775808", "-9223372036854775808", "-9223372036854775809", "18446744073709551615", "18446744073709551616",
+	"9223372036854.775807", "9223372036854.775808", "-9223372036854.775808", "-9223372036854.775809", "9223372036.854775807", "9223372036.854775808",
+	"-9223372036.854775808", "-9223372036.854775809", "9223372036854775.807", "9223372036854775.808", "-9223372036854775.808", "-9223372036854775.809",
+	"1.0000000000", "1.0000000001", "1.999999999", "1.9999999999", "1.000", "1.0001", "0.000000001", "0.0000000001", "1.12345678x", "1.1234567890x", "1.x",
+	"99999999999999999999", "10000000000000000000", "19999999999999999999", "100000000000000000000", "00000000000000000001", "1844674407370955161.5", "18446744073709551.615", "18446744073709551.616",
+	"9223372036854775807.999999999", "9223372036854775808.0", "-9223372036854775808.999999999", "-9223372036854775809.0", "9223372036854775807999", "-9223372036854775808000", "9223372036854775807999999999", "92233720368547758079999999999",
+	"P", "PT", "p", "pt", "PT0S", "-PT0S", "+PT0S", "PT0.0S", "PT1S", "pt1s", "PT1.5S", "PT1,5S", "PT1.S", "PT.5S", "PT1.5.5S", "PT1H", "PT1M", "PT1H1M1S", "PT1S1M", "PT1H1H", "PT01H", "PT001M", "PT1.5H", "PT1.5M", "PT0.5H30M", "PT1H0.5M", "PT1.25H", "PT0.1H", "PT0.000000001H",
+	"P1D", "P1W", "P1M", "P1Y", "P1Y1M1W1D", "P1DT1H", "P1D1Y", "P1.5D", "P1.5W", "PT1D", "P1H", "P1S", "1S", "T1S", "PT1", "PT1X", "PTS", "PTH", "PT-1S", "PT+1S", "P-1D", "PT1S ", " PT1S", "PPT1S", "PTT1S", "PT1SS",
+	"PT2562047H47M16.854775807S", "PT2562047H47M16.854775808S", "-PT2562047H47M16.854775808S", "-PT2562047H47M16.854775809S", "PT2562048H", "-PT2562048H", "PT153722867M", "PT153722868M", "PT9223372036S", "PT9223372037S", "PT9223372036.854775807S", "PT9223372036.854775808S",
+	"-PT9223372036.854775808S", "PT18446744073709551615S", "PT18446744073709551616S", "PT5124095576030431H", "P292Y", "P293Y", "P106751D", "P106752D", "PT0.9999999999S", "PT0.0000000001S", "PT1.123456789123S", "PT1.12345678xS", "PT00000000000000000000001S", "PT1.e5H", "PT1.5e1H", "PT1.+5H", "PT1.5_H", "PT0.H",
+	"PT9223372036.854775807S1", "PT1H2.5M3S", "PT1.5H2M", "PT1M2H"}
+
 func c04TimeCorr(c *Ctx, or *Oracle) {
-	// filled in with the model (step 2)
-	_ = or
+	if or == nil {
+		c.Note("oracle not available: time codec correspondence skipped")
+		return
+	}
+	type q struct {
+		line, want string
+		in        []byte
+	}
+	var batch []q
+	flush := func() {
+		if len(batch) == 0 {
+			return
+		}
+		lines := make([]string, len(batch))
+		for i, b := range batch {
+			lines[i] = b.line
+		}
+		got := or.Ask(lines)
+		for i, b := range batch {
+			op := strings.Fields(b.line)[1]
+			g := got[i]
+			if g == "U" {
+				c.Hit("corr-time:" + op + ":not-modelled(non-digit fraction through strconv.ParseFloat)")
+				continue
+			}
+			g = strings.TrimPrefix(g, "F ")
+			if g != got[i] {
+				c.Hit("corr-time:" + op + ":float-branch(fraction of H/M/date unit)")
+			}
+			if g != b.want {
+				c.Violate("corr-time", op, b.in, map[string]any{"line": b.line, "impl": b.want, "model": got[i], "text": string(b.in),
+					"broken": "correspondence time." + op + " (Model/Time.lean vs arshal_time.go)"})
+			}
+			cls := b.want
+			if strings.HasPrefix(cls, "ok") || strings.HasPrefix(cls, "inacc") {
+				cls = strings.Fields(cls)[0]
+			}
+			if op == "pdurB10" || op == "pdurISO" || op == "ptunix" {
+				c.Hit("corr-time:" + op + ":" + cls)
+			}
+		}
+		batch = batch[:0]
+	}
+	add := func(line, want string, in []byte) {
+		batch = append(batch, q{line, want, in})
+		if len(batch) >= 4000 {
+			flush()
+		}
+	}
+	var pn any
+	call := func(op string, in []byte, f func()) bool {
+		if pn = guard(f); pn != nil {
+			c.Panic(op, in, pn, map[string]any{"text": string(in)})
+			return false
+		}
+		return true
+	}
+	pdurB10 := func(txt []byte, p uint64) {
+		var d time.Duration
+		var err error
+		if !call("parseDurationBase10", txt, func() { d, err = json.VerifParseDurationBase10(txt, p) }) {
+			return
+		}
+		want := c04ErrClass(err)
+		if err == nil {
+			want = fmt.Sprintf("ok %d", int64(d))
+		}
+		add(fmt.Sprintf("time pdurB10 %s %d", hx(txt), p), want, txt)
+	}
+	pdurISO := func(txt []byte) {
+		var d time.Duration
+		var err error
+		if !call("parseDurationISO8601", txt, func() { d, err = json.VerifParseDurationISO8601(txt) }) {
+			return
+		}
+		want := c04ErrClass(err)
+		switch want {
+		case "ok":
+			want = fmt.Sprintf("ok %d", int64(d))
+		case "other": // errInaccurateDateUnits: best-effort value plus an error
+			want = fmt.Sprintf("inacc %d", int64(d))
+		}
+		add("time pdurISO "+hx(txt), want, txt)
+	}
+	ptunix := func(txt []byte, p uint64) {
+		var t time.Time
+		var err error
+		if !call("parseTimeUnix", txt, func() { t, err = json.VerifParseTimeUnix(txt, p) }) {
+			return
+		}
+		want := c04ErrClass(err)
+		if err == nil {
+			want = fmt.Sprintf("ok %d %d", t.Unix(), t.Nanosecond())
+			if _, off := t.Zone(); off != 0 {
+				c.Violate("rt-time", "parseTimeUnix:not-UTC", txt, map[string]any{"text": string(txt)})
+			}
+		}
+		add(fmt.Sprintf("time ptunix %s %d", hx(txt), p), want, txt)
+	}
+	puint := func(txt []byte) {
+		var v uint64
+		var ok bool
+		if !call("ParseUint", txt, func() { v, ok = jsonwire.ParseUint(txt) }) {
+			return
+		}
+		add("time puint "+hx(txt), fmt.Sprintf("%d %s", v, b2s(ok)), txt)
+	}
+
+	r := c.Rng
+	n := c.N(12000, 1500000)
+	var texts [][]byte // pool of produced texts for the mutator
+	for i := 0; i < n; i++ {
+		d := BoundaryInt64(r)
+		for _, p := range c04Pow10s {
+			var out []byte
+			if !call("appendDurationBase10", nil, func() { out = json.VerifAppendDurationBase10(nil, time.Duration(d), p) }) {
+				continue
+			}
+			add(fmt.Sprintf("time durB10 %d %d", d, p), hx(out), nil)
+			pdurB10(out, p)
+			// the implementation-level round trip for this very value (the proved statement durB10_rt, observed on the code)
+			if back, err := json.VerifParseDurationBase10(out, p); err != nil || int64(back) != d {
+				c.Violate("rt-duration", "parseDurationBase10(appendDurationBase10(d))", out, map[string]any{"d": d, "pow10": p, "back": int64(back), "err": fmt.Sprint(err)})
+			}
+			if i%8 == 0 {
+				texts = append(texts, out)
+			}
+		}
+		var out []byte
+		if call("appendDurationISO8601", nil, func() { out = json.VerifAppendDurationISO8601(nil, time.Duration(d)) }) {
+			add(fmt.Sprintf("time durISO %d", d), hx(out), nil)
+			pdurISO(out)
+			if back, err := json.VerifParseDurationISO8601(out); err != nil || int64(back) != d {
+				c.Violate("rt-duration", "parseDurationISO8601(appendDurationISO8601(d))", out, map[string]any{"d": d, "back": int64(back), "err": fmt.Sprint(err)})
+			}
+			if i%4 == 0 {
+				texts = append(texts, out)
+			}
+		}
+		// also with a non-empty prefix (TrimRight in appendFracBase10 looks at the whole buffer)
+		if i%16 == 0 {
+			pre := []byte("x0.00")
+			o1 := json.VerifAppendDurationBase10(append([]byte(nil), pre...), time.Duration(d), 1e9)
+			o2 := json.VerifAppendDurationBase10(nil, time.Duration(d), 1e9)
+			if !bytes.Equal(o1, append(append([]byte(nil), pre...), o2...)) {
+				c.Violate("corr-time", "appendDurationBase10:prefix", o1, map[string]any{"d": d, "with_prefix": string(o1), "without": string(o2), "broken": "append with a prefix is prefix ++ append without"})
+			}
+		}
+		sec := BoundaryInt64(r)
+		tm := GenTime(r, "unix")
+		nsec := int64(tm.Nanosecond())
+		tm = time.Unix(sec, nsec)
+		if tm.Unix() != sec || int64(tm.Nanosecond()) != nsec {
+			c.Violate("corr-time", "time.Unix", nil, map[string]any{"sec": sec, "nsec": nsec, "got": []int64{tm.Unix(), int64(tm.Nanosecond())},
+				"broken": "assumption time.Unix(sec,nsec).Unix()==sec for nsec in [0,1e9)"})
+		}
+		for _, p := range c04Pow10s {
+			var out []byte
+			if !call("appendTimeUnix", nil, func() { out = json.VerifAppendTimeUnix(nil, tm, p) }) {
+				continue
+			}
+			add(fmt.Sprintf("time tunix %d %d %d", sec, nsec, p), hx(out), nil)
+			ptunix(out, p)
+			if back, err := json.VerifParseTimeUnix(out, p); err != nil || back.Unix() != sec || int64(back.Nanosecond()) != nsec {
+				c.Violate("rt-time", "parseTimeUnix(appendTimeUnix(t))", out, map[string]any{"sec": sec, "nsec": nsec, "pow10": p, "back": []int64{back.Unix(), int64(back.Nanosecond())}, "err": fmt.Sprint(err)})
+			}
+			if i%8 == 0 {
+				texts = append(texts, out)
+			}
+		}
+		c.Case(fmt.Sprintf("codec:%d:%d:%d", d, sec, nsec), true)
+	}
+	c.HitN("corr-time:append+parse(boundary-dense int64 x {1,1e3,1e6,1e9}, ISO, unix)", int64(n))
+	for _, s := range c04HandTexts {
+		texts = append(texts, []byte(s))
+	}
+	// malformed / mutated texts through every parser
+	m := c.N(40000, 3000000)
+	for i := 0; i < m; i++ {
+		t := texts[r.IntN(len(texts))]
+		if i < len(c04HandTexts)*2 {
+			t = []byte(c04HandTexts[i%len(c04HandTexts)])
+		}
+		if i >= len(c04HandTexts) {
+			t = c04Mutate(r, t)
+		}
+		switch i % 4 {
+		case 0:
+			pdurISO(t)
+		case 1:
+			pdurB10(t, c04Pow10s[r.IntN(4)])
+		case 2:
+			ptunix(t, c04Pow10s[r.IntN(4)])
+		default:
+			if i%8 == 3 {
+				puint(t)
+			} else {
+				pdurISO(t)
+			}
+		}
+		if i < len(c04HandTexts) { // hand-written texts through all parsers and bases
+			pdurISO(t)
+			puint(t)
+			for _, p := range c04Pow10s {
+				pdurB10(t, p)
+				ptunix(t, p)
+			}
+		}
+		c.Case("mut:"+string(t), true)
+	}
+	c.HitN("corr-time:mutated/malformed texts", int64(m))
+	// helper ops
+	for i := 0; i < c.N(3000, 200000); i++ {
+		sec, nsec := BoundaryInt64(r), int64(GenTime(r, "unix").Nanosecond())
+		_ = sec
+		max10 := []uint64{1e3, 1e6, 1e9}[r.IntN(3)]
+		nn := uint64(r.Int64N(int64(max10)))
+		if r.IntN(3) == 0 {
+			nn = uint64(r.IntN(12))
+		}
+		_ = nsec
+		add(fmt.Sprintf("time padded %d %d", nn, max10), hx(c04GoPadded(nn, max10)), nil)
+	}
+	flush()
+}
+
+// c04GoPadded is strconv-based zero padding (what appendPaddedBase10 must produce for n < max10).
+func c04GoPadded(n, max10 uint64) []byte {
+	w := len(strconv.FormatUint(max10, 10)) - 1
+	s := strconv.FormatUint(n, 10)
+	return []byte(strings.Repeat("0", w-len(s)) + s)
 }
